@@ -198,7 +198,10 @@ impl CryptoCore {
         let mut nonce;
         {
             let mut extra = Cursor::new(extra);
-            key_id = extra.read_u8().map_err(|_| Error::Crypto("Input data too short"))? % 4;
+            key_id = extra.read_u8().map_err(|_| Error::Crypto("Input data too short"))?;
+            if key_id >= 4 {
+                return Err(Error::Crypto("Invalid key id"));
+            }
             nonce = Nonce::zero();
             extra.read_exact(&mut nonce.0[5..]).map_err(|_| Error::Crypto("Input data too short"))?;
             nonce.set_msb(if self.nonce_half { 0x00 } else { 0x80 });
